@@ -13,8 +13,8 @@ impl Property for C12 {
     }
     fn runs(&self, tier: Tier) -> u64 {
         match tier {
-            Tier::Quick => 400,
-            Tier::Thorough => 6000,
+            Tier::Quick => 2500,
+            Tier::Thorough => 40000,
         }
     }
     fn rule(&self) -> &'static str {
